@@ -41,12 +41,16 @@ def recomb_prob(rc):
 
 
 def prior_fraction(x):
-    """a prior given to the implementation as a double -> the rational used by the model (simplest rational within
-    1e-16 relative; exact for dyadic values and for 1/3.0)"""
-    fr = Fraction(x).limit_denominator(10 ** 6)
-    if abs(fr - Fraction(x)) <= Fraction(x) / 10 ** 16:
-        return fr
-    return Fraction(x)
+    """a prior given to the implementation as a double -> the rational used by the model: the simplest rational
+    within 2e-15 (relative) of the double (exact for dyadic values; 1/3.0 -> 1/3, 0.65 -> 13/20, ...)."""
+    fx = Fraction(x)
+    if fx == 0:
+        return fx
+    for d in (10 ** 3, 10 ** 6, 10 ** 9):
+        fr = fx.limit_denominator(d)
+        if abs(fr - fx) <= abs(fx) * 2 / 10 ** 15:
+            return fr
+    return fx
 
 
 # ------------------------------------------------------------------ instances
